@@ -11,7 +11,8 @@ THEOREMS = ["Genql.C05." + t for t in [
 TRUSTED = ["Go sort.Slice returns a permutation without inversions for a strict weak order (it is not stable: tie order "
            "is never compared)", "sqlparser"]
 RULE = ("random tables (0-10 rows) x key lists of 1-3 keys (ties, both directions; NULL keys only with a single key) compared by "
-        "key-tuple sequence + permutation; windows enumerated exhaustively for len<=8 x offset,limit in 0..len+2 x both LIMIT "
+        "key-tuple sequence + permutation; 30% of the tables with their integral numbers stored as another Go number kind "
+        "(int..uint8, float32, mixed); 25% as SELECT DISTINCT keys; windows enumerated exhaustively for len<=8 x offset,limit in 0..len+2 x both LIMIT "
         "spellings x with/without WHERE; non-trivial = >=2 distinct key tuples or a window that cuts the sequence")
 
 
@@ -28,7 +29,7 @@ def gen_sort_case(rnd):
                 if rnd.random() < 0.5:
                     r[k] = None
                 continue
-            r[k] = rnd.choice([1, 2, 3, 2.5, -1, 10]) if kd == "num" else rnd.choice(["a", "b", "B", "ab", "", "10", "9"])
+            r[k] = rnd.choice([1, 2, 3, 2.5, -1, 10, -3, -10, 0, 7, -7]) if kd == "num" else rnd.choice(["a", "b", "B", "ab", "", "10", "9"])
         rows.append(r)
     keys = ["k0", "k1", "k2"][:nkeys]
     if not nullable:
@@ -42,10 +43,24 @@ def gen_sort_case(rnd):
             limit = rnd.choice([9223372036854775807, 9223372036854775806, 4611686018427387904, 2147483648, 4294967296])
         if rnd.random() < 0.6:
             offset = rnd.randint(0, n + 2)
+    # the engine accepts every Go number kind in its input (JSON decoding only produces float64):
+    # the same table with its integral numbers stored as another kind must sort identically
+    nk = rnd.choice(NUM_KINDS) if rnd.random() < 0.3 else None
+    if not nullable and rnd.random() < 0.25:
+        # DISTINCT (+ ORDER BY + window): duplicates are removed BEFORE the sort and the window
+        items = [item(col(k)) for k in keys]
+        src = [{k: r[k] for k in keys} for r in rows]
+        q = select(items, table("t"), distinct=True, order=order, limit=limit, offset=offset,
+                   limit_spelling=rnd.choice([0, 1]))
+        return mk_case({"t": rows}, q, mode="sorted" if limit is None else "keyseq", order_keys=[[k] for k in keys],
+                       source_rows=src, tag="sort-distinct", num_kind=nk)
     q = select([["star"]], table("t"), order=order, limit=limit, offset=offset,
                limit_spelling=rnd.choice([0, 1]))
     mode = "sorted" if limit is None else "keyseq"
-    return mk_case({"t": rows}, q, mode=mode, order_keys=[[k] for k in keys], source_rows=rows, tag="sort")
+    return mk_case({"t": rows}, q, mode=mode, order_keys=[[k] for k in keys], source_rows=rows, tag="sort", num_kind=nk)
+
+
+NUM_KINDS = ["int", "int64", "int32", "int16", "int8", "uint", "uint64", "uint32", "uint16", "uint8", "float32", "mixed"]
 
 
 def window_cases(max_len):
